@@ -1,6 +1,7 @@
 package engine
 
 import (
+	"bytes"
 	"context"
 	"errors"
 	"fmt"
@@ -234,13 +235,16 @@ func (e *ExecutionEngine) Execute(ctx context.Context, operation *graphql.Reques
 	// Validate user-supplied and extracted variables against the (remapped) operation.
 	// ValidateWithRemap translates renamed names back to originals for both JSON lookup
 	// and error messages, so users still see their declared variable names in errors.
-	if len(operation.Variables) > 0 && operation.Variables[0] == '{' {
-		validator := variablesvalidation.NewVariablesValidator(variablesvalidation.VariablesValidatorOptions{
-			ApolloCompatibilityFlags: e.apolloCompatibilityFlags,
-		})
-		if err := validator.ValidateWithRemap(operation.Document(), e.config.schema.Document(), operation.Variables, remapVariables); err != nil {
-			return err
-		}
+	// Absent or null variables are an empty object: a required variable must still be reported as missing.
+	variables := bytes.TrimSpace(operation.Variables)
+	if len(variables) == 0 || bytes.Equal(variables, []byte("null")) {
+		variables = []byte("{}")
+	}
+	validator := variablesvalidation.NewVariablesValidator(variablesvalidation.VariablesValidatorOptions{
+		ApolloCompatibilityFlags: e.apolloCompatibilityFlags,
+	})
+	if err := validator.ValidateWithRemap(operation.Document(), e.config.schema.Document(), variables, remapVariables); err != nil {
+		return err
 	}
 
 	execContext := newInternalExecutionContext(e.postProcessorOptions...)
